@@ -151,20 +151,11 @@ func checkJSONWriter(p *Prog, r *Report) {
 					ok, why = false, "Fprintln of a byte slice prints a number list"
 				}
 			default:
-				// w.Write(append(data, '\n'))
-				arg := s.Resolve(w.Call.Args[len(w.Call.Args)-1])
-				good := false
-				if c, isC := arg.(*ssa.Call); isC {
-					if bi, isB := c.Call.Value.(*ssa.Builtin); isB && bi.Name() == "append" && s.Resolve(c.Call.Args[0]) == ssa.Value(data) {
-						if elems, okv := VariadicElems(c.Call.Args[1]); okv && len(elems) == 1 {
-							if nl, isK := constInt(elems[0]); isK && nl == '\n' {
-								good = true
-							}
-						}
-					}
-				}
-				if !good {
-					ok, why = false, "the single write is not the marshalled bytes plus one newline"
+				// w.Write(<bytes built from the marshalled data and one newline>)
+				arg := w.Call.Args[len(w.Call.Args)-1]
+				seq, okSeq := byteSeq(s, arg, data, 0)
+				if !okSeq || len(seq) != 2 || seq[0] != "DATA" || seq[1] != "\n" {
+					ok, why = false, fmt.Sprintf("the single write is not the marshalled bytes plus one newline (written: %v)", seq)
 				}
 			}
 		}
@@ -540,4 +531,68 @@ func selectDoneChosenAfter(s *Seg, after ssa.Instruction) bool {
 		}
 	}
 	return false
+}
+
+// byteSeq evaluates a []byte expression built with append / make / conversions as a sequence of
+// pieces: "DATA" for the marshalled bytes, single characters for constant bytes.
+func byteSeq(s *Seg, v ssa.Value, data ssa.Value, d int) ([]string, bool) {
+	if d > 8 || v == nil {
+		return nil, false
+	}
+	v = s.Resolve(v)
+	if v == data {
+		return []string{"DATA"}, true
+	}
+	switch t := v.(type) {
+	case *ssa.MakeSlice:
+		if k, ok := constInt(t.Len); ok && k == 0 {
+			return nil, true
+		}
+	case *ssa.Const:
+		if t.Value == nil {
+			return nil, true // nil slice
+		}
+		if str, ok := constString(t); ok {
+			var out []string
+			for _, c := range []byte(str) {
+				out = append(out, string(rune(c)))
+			}
+			return out, true
+		}
+	case *ssa.Convert:
+		return byteSeq(s, t.X, data, d+1)
+	case *ssa.ChangeType:
+		return byteSeq(s, t.X, data, d+1)
+	case *ssa.Slice:
+		if t.Low == nil && t.High == nil {
+			if a, ok := t.X.(*ssa.Alloc); ok {
+				// array literal of constant bytes (varargs)
+				if elems, ok := VariadicElems(t); ok {
+					var out []string
+					for _, e := range elems {
+						k, isK := constInt(e)
+						if !isK {
+							return nil, false
+						}
+						out = append(out, string(rune(k)))
+					}
+					_ = a
+					return out, true
+				}
+			}
+			return byteSeq(s, t.X, data, d+1)
+		}
+		if k, ok := constInt(t.High); ok && k == 0 && t.Low == nil {
+			return nil, true // x[:0]
+		}
+	case *ssa.Call:
+		if bi, ok := t.Call.Value.(*ssa.Builtin); ok && bi.Name() == "append" {
+			a, ok1 := byteSeq(s, t.Call.Args[0], data, d+1)
+			b, ok2 := byteSeq(s, t.Call.Args[1], data, d+1)
+			if ok1 && ok2 {
+				return append(append([]string(nil), a...), b...), true
+			}
+		}
+	}
+	return nil, false
 }
